@@ -8,7 +8,7 @@ ID = 'C04'
 DOMAIN = 'gin/eval'
 PROPS_FILES = ['Gin/Props/C04.lean']
 ANCHOR_FILES = ['config.py', 'config_parser.py']
-RULE = ('1-2 consumer probes and 2-3 target probes (all parameters defaulted); target parameters bound per scope; '
+RULE = ('[table on the real code: one function registered under two names with bindings of their own, scoped references to both in every order] 1-2 consumer probes and 2-3 target probes (all parameters defaulted); target parameters bound per scope; '
         'consumer parameters bound to values in which @target / @scope/target() references are nested inside lists, '
         'tuples and dict keys/values, targets possibly referring to further targets (acyclic, depth <= 3); 2-5 consuming '
         'calls under random ambient scopes with random caller-supplied parameters (positional / keyword, some of them '
@@ -106,7 +106,69 @@ def gen_case(rng):
   return {'dom': 'gin', 'ops': ops, '_flat': flat}
 
 
+# one Python function registered under two names, each with bindings of its own: a reference names a
+# *configurable*, not the function behind it - a finite table on the real code (the probes of the mirror are
+# identified by their function, so two registrations of one function cannot be told apart there)
+ALIAS_CASES = [{'dom': 'gin', 'kind': 'alias', 'api': api, 'evaluate': ev, 'scope': sc, 'order': order, 'ops': []}
+               for api in ('external', 'register') for ev in (True, False) for sc in ('', 's', 's/t')
+               for order in ('ab', 'ba', 'aba')]
+
+
+def run_alias_case(case):
+  import core
+  gin = core.fresh_gin()
+
+  def f(p=0, q=None):
+    return ('f', p, q)
+  if case['api'] == 'external':
+    gin.external_configurable(f, 'first', module='t')
+    gin.external_configurable(f, 'second', module='t')
+  else:
+    gin.register('first', module='t')(f)
+    gin.register('second', module='t')(f)
+
+  @gin.configurable
+  def consumer(a=None, b=None, c=None):
+    return (a, b, c)
+  sc = case['scope']
+  pre = sc + '/' if sc else ''
+  gin.bind_parameter('t.first.p', 1)
+  gin.bind_parameter('t.second.p', 2)
+  if sc:
+    gin.bind_parameter(pre + 't.first.p', 11)
+    gin.bind_parameter(pre + 't.second.q', 22)
+  call = '()' if case['evaluate'] else ''
+  names = {'a': 'first', 'b': 'second'}
+  params = ['a', 'b', 'c']
+  text = ''.join(f'consumer.{params[i]} = @{pre}t.{names[ch]}{call}\n' for i, ch in enumerate(case['order']))
+  facts = {}
+  try:
+    gin.parse_config(text)
+    got = consumer()
+    if not case['evaluate']:
+      got = tuple(g() if g is not None else None for g in got)
+    facts['got'] = [list(g) if g is not None else None for g in got]
+  except Exception as e:  # pylint: disable=broad-except
+    facts['error'] = f'{type(e).__name__}: {e}'[:200]
+  want = {'first': ['f', 11 if sc else 1, None], 'second': ['f', 2, 22 if sc else None]}
+  facts['want'] = [want[names[ch]] for ch in case['order']] + [None] * (3 - len(case['order']))
+  return {'out': [], 'facts': facts}
+
+
+def run_impl(case):  # noqa: F811
+  if case.get('kind') == 'alias':
+    return run_alias_case(case)
+  return gindom.run_impl(case)
+
+
+def compare(case, impl, model):  # noqa: F811
+  if case.get('kind') == 'alias':
+    return None
+  return gindom.compare(case, impl, model)
+
+
 def gen_cases(rng, tier, boost=1):
+  yield from ALIAS_CASES
   n = (700 if tier == 'quick' else 20000) * boost
   for _ in range(n):
     yield gen_case(rng)
@@ -128,6 +190,14 @@ def _count_refs(v, counts, evaluated_only=True):
 
 def oracle(case, impl):
   """Independent statement (flat configurations): call counts, scopes, and immutability of the store."""
+  if case.get('kind') == 'alias':
+    f = impl['facts']
+    if 'error' in f:
+      return f'two registrations of one function, references {case["order"]} under scope {case["scope"]!r}: {f["error"]}'
+    if f['got'] != f['want']:
+      return (f'two registrations of one function: the references (order {case["order"]}, scope {case["scope"]!r}, '
+              f'evaluated={case["evaluate"]}) delivered {f["got"]}, their own bindings imply {f["want"]}')
+    return None
   outs = impl['out']
   ops = case['ops']
   configs = [r for o, r in zip(ops, outs) if o['op'] == 'config']
@@ -174,6 +244,8 @@ def oracle(case, impl):
 
 
 def nontrivial(case, impl):
+  if case.get('kind') == 'alias':
+    return True
   nested = any(o['op'] == 'bind' and isinstance(o['val'], dict) and any(k in o['val'] for k in ('l', 't', 'd'))
                for o in case['ops'])
   override = any(o['op'] == 'ecall' and (len(o['args']) > (1 if '_selfname' in o else 0) or o['kwargs'])
@@ -183,6 +255,9 @@ def nontrivial(case, impl):
 
 
 def tally(stats, case, impl):
+  if case.get('kind') == 'alias':
+    stats['alias_table'] = stats.get('alias_table', 0) + 1
+    return
   for op, res in zip(case['ops'], impl['out']):
     k = op['op'] + ':' + ('ok' if 'ok' in res else res['err'])
     stats[k] = stats.get(k, 0) + 1
@@ -192,6 +267,8 @@ def tally(stats, case, impl):
 
 
 def shrink(case):
+  if case.get('kind') == 'alias':
+    return
   ops = case['ops']
   for k in range(len(ops) - 1, -1, -1):
     if ops[k]['op'] in ('register', 'log'):
